@@ -6,7 +6,7 @@
 (* bit-serially -- and TLC compares the two on all byte operands and on a   *)
 (* boundary lattice of word operands.                                       *)
 (***************************************************************************)
-EXTENDS Alu, Bitwise, TLC
+EXTENDS Deviations, TLC
 
 VARIABLES op, w, a, c
 vars == <<op, w, a, c>>
@@ -94,6 +94,22 @@ UnaryLaws ==
      /\ \A b \in Vals(w) :
           LET cm == Cmp(w, a, b)  sb == SubW(w, a, b, 0) IN cm.res = a /\ cm.fl = sb.fl
 
+
+\* Every recorded known finding is a genuine violation: on its witness the deviation's result differs
+\* from the ideal one in exactly the way the finding says (so the invariants above are not vacuous and
+\* the deviation cannot hide a conforming implementation)
+DeviationsAreViolations ==
+  /\ LET i == Inc(8, 255)  d == DevUnOp("Dev_IncDecWritesCF", "inc", 8, 255, 0)
+     IN i.res = d.res /\ (i.def & CF) = 0 /\ (d.def & CF) = CF /\ FlagSet(d.fl, CF)
+  /\ LET n == Neg(16, 0)  d == DevUnOp("Dev_NegZeroKeepsSF", "neg", 16, 0, SF)
+     IN (n.def & SF) = SF /\ ~FlagSet(n.fl, SF) /\ (d.def & SF) = 0
+  /\ LET m == MulDiv("imul", 8, 4, 0, 252)  d == DevMulDiv("Dev_Imul8Flags", "imul", 8, 4, 0, 252)
+     IN m.ax = d.ax /\ m.ax = 65520 /\ ~FlagSet(m.fl, CF) /\ FlagSet(d.fl, CF) /\ FlagSet(d.fl, OF)
+  /\ Cond("jle", ZF) /\ ~DevCond("Dev_JleConjunction", "jle", ZF)
+  /\ LET s == [regs |-> [n \in RegNames |-> CASE n = "ss" -> 10 [] n = "bp" -> 6 [] OTHER -> 0], flags |-> 0, mem |-> << >>, bg |-> -1, stack |-> << >>]
+         i == [cls |-> "lea", dst |-> [k |-> "reg16", r |-> "ax"], src |-> [k |-> "mem", seg |-> "", base |-> "bp", index |-> "", disp |-> 0]]
+     IN Exec(s, i, 0).regs["ax"] = 6 /\ DevExec("Dev_LeaDsRelative", s, i, 0).regs["ax"] = 166 /\ DevApplies("Dev_LeaDsRelative", s, i)
+  /\ DevChainApplies("Dev_DeepMacroChainAborts", 4096, 134, FALSE) /\ ~DevChainApplies("Dev_DeepMacroChainAborts", 64, 134, FALSE)
 
 (***************************************************************************)
 (* C02: logic, shifts and rotates                                          *)
